@@ -40,7 +40,11 @@ impl Flow {
         VerifyArgs {
             input: presentation.to_string(),
             fmt: self.issue.fmt,
-            resolver: Resolver::always(self.issue.key),
+            // keyed by the exact iss of the claims; anything else resolves to another key of the same family
+            resolver: match self.issue.claims.get("iss").and_then(Value::as_str) {
+                Some(iss) => Resolver { default: other_key_same_family(self.issue.key), by_iss: vec![(iss.to_string(), self.issue.key)] },
+                None => Resolver::always(self.issue.key),
+            },
             aud: self.kb.as_ref().map(|k| k.aud.clone()),
             nonce: self.kb.as_ref().map(|k| k.nonce.clone()),
         }
@@ -137,6 +141,11 @@ impl FlowRun {
 pub fn run_flow(ctx: &mut Ctx, f: &Flow) -> FlowRun {
     let issue = issue(&f.issue);
     ctx.impl_calls += 1;
+    run_flow_from(ctx, f, issue)
+}
+
+/// the holder and verifier stages of a flow whose issuance has already been executed (e.g. on a reused issuer instance)
+pub fn run_flow_from(ctx: &mut Ctx, f: &Flow, issue: IssueRes) -> FlowRun {
     let mut run = FlowRun { issue, hold: None, ver: None };
     if let Some(s) = run.issued().cloned() {
         let h = holder_session(&s, f.issue.fmt, &[f.present_args()]);
